@@ -61,6 +61,12 @@ def render(state, layout, kinds):
     out = {}
     for f, name in enumerate(FILES):
         st = [STMT[kinds[k]] for (ff, k) in state if ff == f]
+        # occurrences of one identity are NOT adjacent when another statement can stand between them (states are sorted multisets; seeded change C07-m18 bucketed
+        # the findings with itertools.groupby, which only groups adjacent ones: the candidates of an identity were incomplete when another test's finding lay between)
+        if len(st) == 3 and st[0] == st[1] != st[2]:
+            st = [st[0], st[2], st[1]]
+        elif len(st) == 3 and st[1] == st[2] != st[0]:
+            st = [st[1], st[0], st[2]]
         if not st:
             body = "x = 1\n"
         elif layout == 0:
